@@ -154,6 +154,21 @@ fn gen_case(r: &mut Rng) -> TCase {
             let plain = t.sup.is_none() && t.fin && !t.sh;
             let p = t.kind * 2 + if plain && r.chance(1, 2) { 0 } else { 1 };
             (if p == 0 && r.chance(1, 4) { 6 } else { p }, t)
+        } else if choice < 68 && (!flat.is_empty() || !ops.is_empty()) {
+            // a NEAR duplicate: a type of the base / an earlier request changed in exactly one attribute (one field's
+            // mutability or type, one field more or fewer, finality, sharing, the supertype): it must get a new id
+            let mut t = if !ops.is_empty() && (flat.is_empty() || r.chance(1, 2)) { r.pick(&ops).1.clone() } else { r.pick(&flat).clone() };
+            let mut fancy = !(t.sup.is_none() && t.fin && !t.sh);
+            match r.below(6) {
+                0 | 1 if t.kind != 0 && !t.ys.is_empty() => { let i = r.below(t.ys.len() as u64) as usize; t.ys[i] ^= 1; }
+                2 if !t.xs.is_empty() => { let i = r.below(t.xs.len() as u64) as usize; t.xs[i] = if t.kind == 0 { gen_val(r, 0) } else { gen_storage(r, 0) }; }
+                3 if t.kind == 2 => { if !t.xs.is_empty() && r.chance(1, 2) { t.xs.pop(); t.ys.pop(); } else { t.xs.push(gen_storage(r, 0)); t.ys.push(r.below(2) as u32); } }
+                4 => { t.fin = !t.fin; fancy = true; }
+                5 => { t.sh = !t.sh; fancy = true; }
+                _ => { if t.kind == 0 { t.ys.push(gen_val(r, 0)); } else if !t.ys.is_empty() { t.ys[0] ^= 1; } }
+            }
+            let p = t.kind * 2 + fancy as u32;
+            (p, t)
         } else {
             let fancy = r.chance(1, 2);
             let mut t = gen_ct(r, cur + 1, fancy);
